@@ -57,7 +57,7 @@ def prepare_events(events, backend_like):
     return events, is_terminal, direction, last_occurrence, requires_dstate
 ##### ---- #####
 
-def handle_events(sol_tuple, events, consts, direction, is_terminal, attributes):
+def handle_events(sol_tuple, events, consts, direction, is_terminal, attributes, already_reported=None):
     """Helper function to handle events.
     Parameters
     ----------
@@ -168,6 +168,13 @@ def handle_events(sol_tuple, events, consts, direction, is_terminal, attributes)
                 down & (direction < 0) |
                 either & (direction == 0))
     
+    if already_reported is not None:
+        # The crossing a continued call starts on has been reported (and acted upon) by the call that stopped
+        # there: it is not met again, in particular a terminal event must not stop the new call on the spot
+        for idx, t_known in enumerate(already_reported):
+            if t_known is not None and D.ar_numpy.abs(roots[idx] - t_known) <= D.epsilon(roots[idx].dtype) ** 0.7:
+                mask[idx] = False
+
     active_events = D.ar_numpy.reshape(D.ar_numpy.nonzero(mask), (-1,))
 
     roots = roots[active_events]
@@ -999,6 +1006,12 @@ class OdeSystem(object):
                         last_occurrence[__ev_idx] = __old_idx
                         break
 
+        # Crossings reported by an earlier call at the very point this call starts from (a terminal stop, a call split at a root)
+        __met_at_start = None
+        if events is not None:
+            __met_at_start = [self.__events[__idx].t if __idx != -1 and D.ar_numpy.abs(self.__events[__idx].t - self.__t[self.counter]) <= D.epsilon(self.__y[0].dtype) ** 0.7 else None
+                              for __idx in last_occurrence]
+
         implicit_integration = False
         if D.ar_numpy.to_numpy(tf) == np.inf:
             implicit_integration = True
@@ -1072,7 +1085,8 @@ class OdeSystem(object):
 
                         sol_tuple = (self.__sol, prev_time, next_time)
                         try:
-                            active_events, roots, end_int, evs = handle_events(sol_tuple, events, self.constants, direction, is_terminal, (requires_dstate,))
+                            active_events, roots, end_int, evs = handle_events(sol_tuple, events, self.constants, direction, is_terminal, (requires_dstate,),
+                                                                               already_reported=__met_at_start)
                         except BaseException:
                             # The step is not recorded when an event function fails, so neither are its interpolant(s)
                             while len(self.__sol) > __pre_length:
